@@ -258,6 +258,23 @@ func checkC10(c *Ctx, r *Report) {
 			continue
 		}
 		bo := stripConv(rs.Call.Call.Args[1])
+		// the policy is a parameter of a retry helper: fresh if every caller constructs it
+		if args := c.paramArgs(bo); len(args) > 0 {
+			allFresh := true
+			for _, a := range args {
+				av := stripConv(a)
+				if call, ok := av.(*ssa.Call); ok && isCallTo(call, fnBackoffWithCtx) {
+					av = stripConv(call.Call.Args[0])
+				}
+				if _, isCall := av.(*ssa.Call); !isCall {
+					allFresh = false
+				}
+			}
+			if allFresh {
+				r.OK(pname+"|Retry(fresh back-off from every caller)", rs.Call.Pos(), "back-off constructed by each caller for this call")
+				continue
+			}
+		}
 		var inner ssa.Value = bo
 		if call, ok := bo.(*ssa.Call); ok && isCallTo(call, fnBackoffWithCtx) {
 			inner = stripConv(call.Call.Args[0])
